@@ -109,6 +109,7 @@ func (c *c15ctx) decodeCase(s string) (accepted bool) {
 }
 
 func c15(r *engine.Run) {
+	r.RaceWorkload = "text" // supplement: free-running race-detector pass over the same API (can only add findings)
 	c := &c15ctx{r: r, out: engine.NewCounter(), fam: engine.NewCounter()}
 	if mb58.Encode([]byte{0, 0, 1}) != "112" || mb58.Encode([]byte("Hello World!")) != "2NEpo7TZRRrLZSi2U" {
 		r.Broken("model/base58 vector")
